@@ -70,6 +70,7 @@ package node
 
 // ---- the signature check
 //@ func (*BaseNodeService).GetSkipCommKeysVerification
+//@   safety C09
 //@   requires s != nil
 //@   pure
 //@   ensures result == s.SkipCommKeysVerification
@@ -132,6 +133,7 @@ package node
 //@   ensures[C15.sign] result1 == nil ==> content(result0) == edSign(keyOf(s.userName), content(message))
 
 //@ func (*BaseNodeService).buildMessage
+//@   safety C09
 //@   requires s != nil
 //@   pure
 //@   ensures result1 == nil ==> result0 != nil && fresh(result0)
@@ -149,6 +151,7 @@ package node
 //@   pure
 //@   ensures result != nil && fresh(result)
 //@ func (*github.com/lidofinance/dc4bc/fsm/state_machines.FSMInstance).Do
+//@   safety C09
 //@   nosafety
 //@   modifies *
 //@   modifies $dos
@@ -183,6 +186,7 @@ package node
 //@   pure
 
 //@ func (*BaseNodeService).SetSkipCommKeysVerification
+//@   safety C09
 //@   requires s != nil
 //@   modifies BaseNodeService.SkipCommKeysVerification
 //@   ensures s.SkipCommKeysVerification == b
